@@ -1946,7 +1946,8 @@ def c02_cases(tier, seed):
                 c = rng.choice(["a", "h", "x"])
                 cmds.append(Cmd([c], "ins", c=ord(c), n=1))
         cmds.append(Cmd(["F12"], "noop"))
-        cmds.append(Cmd(["C-d"], "enter") if mode == "vi" and rng.random() < 0.6 else Cmd(["Enter"], "enter"))
+        r9 = rng.random()
+        cmds.append(Cmd(["C-c"], "enter") if r9 < 0.3 else Cmd(["C-d"], "enter") if mode == "vi" and r9 < 0.7 else Cmd(["Enter"], "enter"))
         chunks = [b"".join(p_tty.key_bytes(k) for k in cmd.keys) for cmd in cmds]
         cases.append(script_case(cmds, mode=mode, cols=cols, prompt=prompt, hints=hints, chunks=chunks,
                                  timeout=0 if mode == "vi" else rng.choice(["none", 0])))
@@ -2086,12 +2087,18 @@ def eval_c02(res, cases_out, stream, width):
         else:
             # the read returned: the cursor is after the last character so that what the application prints starts on a fresh row
             b = out.find(b"\x1b[?2004l", base)
-            if b > 0 and t.steps and t.steps[-1][2][0] == "line":
+            ended = t.steps[-1][2] if t.steps else (None,)
+            if b > 0 and (ended[0] == "line" or (ended[0] == "end" and ended[1] == "int")):
                 try:
                     scr.feed(decoded(out[fed:]))
                 except UnicodeDecodeError:
                     continue
-                line = t.steps[-1][2][1]
+                if ended[0] == "line":
+                    line = ended[1]
+                else:
+                    # Ctrl-C: the text (and the hint shown with it) stay as they are; what the application prints next starts below
+                    line = t.steps[-1][1][0] + (t.steps[-1][3][5] or [])
+                    stats["final_interrupted"] = stats.get("final_interrupted", 0) + 1
                 rows, cur, _, exp = vt.layout(c.cols, width, prompt + line, [], [], tab=int(c.meta.get("tab_stop", 8)))
                 if exp.known_class:
                     continue
